@@ -128,6 +128,9 @@ def validate_file(nc, cls, orthogonal=None, has_pressure=None, has_wall=True):
         nchecked += a.size
         if k.startswith("chi"):
             # documented: undefined (NaN) on open field lines, defined in the core
+            # (chi = 2 pi zShift/ShiftAngle: 0/0 when there is no toroidal field)
+            if np.all(nc["ShiftAngle"][cx] == 0.0) and np.all(nc["zShift"] == 0.0):
+                continue
             bad = int((~np.isfinite(a[core2d])).sum())
             notnan = int(np.isfinite(a[~core2d]).sum())
             if bad:
